@@ -446,6 +446,8 @@ func (r *Run) compose(g *kit.Gor, call *UpCall, req *http.Request, res, planIdx 
 			return u
 		case "abs", "cross":
 			return BuildURL(t, 0)
+		case "netpath":
+			return strings.TrimPrefix(BuildURL(t, 0), "http:") // network-path reference: //host/path
 		}
 		return ""
 	}
